@@ -1360,6 +1360,9 @@ def shrink(ctx, pid, mod, case, detail):
         return case, detail
     if (pid, want) in _SHRUNK:  # one minimised witness per kind of violation is enough
         return _SHRUNK[(pid, want)]
+    if len(_SHRUNK) >= 3:  # bound the time spent on minimising; further kinds are reported as found
+        _SHRUNK[(pid, want)] = (case, detail)
+        return case, detail
     pairs = list(zip(case["ops"], case.get("obs") or [[] for _ in case["ops"]]))
 
     def mk(ps, keep_obs=True):
